@@ -41,6 +41,7 @@ type Binder struct {
 	inv                 map[invKey]int
 	invRev              map[int]invKey
 	internalReg         map[wamp.ID]bool // registrations of the realm's own meta procedures
+	minClientReg        wamp.ID          // smallest registration id handed to a client
 }
 
 func NewBinder() *Binder {
@@ -65,6 +66,8 @@ type Seq struct {
 	lenientTo  map[int]bool          // sessions ending concurrently in this step: what else reaches them is not determined
 	metaRender map[invKey]MetaRender // (caller idx, request) -> renderer of the meta RESULT
 	MetaKill   bool
+	Authz      *TableAuthz // the realm's Authorizer (nil: none)
+	LocalAuthz bool        // RequireLocalAuthz
 	curIdx   []int   // slot -> index into Slots of the session currently there (-1 none)
 	deadSess []*Sess // ended sessions: must not receive anything further
 	// options
@@ -401,6 +404,9 @@ func (q *Seq) Compare(r *SeqRealm, what string, exp []Exp, pending *MCall) {
 			for _, e := range expAt(a.sidx, fmt.Sprintf("REGISTERED(%d,", x.Request)) {
 				if n, ok := symOf(e.Text, "R#"); ok {
 					bind("registration", b.reg, b.regRev, x.Registration, n)
+					if b.minClientReg == 0 || x.Registration < b.minClientReg {
+						b.minClientReg = x.Registration
+					}
 				}
 			}
 		case *wamp.Published:
@@ -586,4 +592,80 @@ func (q *Seq) LearnInternalRegs(slot int) {
 			}
 		}
 	}
+}
+
+// ---- harness Authorizer ----------------------------------------------------
+
+const (
+	authzAllow = iota
+	authzDeny
+	authzFail
+	authzRewrite
+)
+
+// TableAuthz decides allow / deny / fail / rewrite as a pure function of
+// (seed, authid, message type, URI); the model evaluates the same function.
+type TableAuthz struct {
+	Seed     uint64
+	DenyPerm int // per mille
+	FailPerm int
+	RewrPerm int
+	Called   int
+}
+
+func msgURI(m wamp.Message) string {
+	switch x := m.(type) {
+	case *wamp.Publish:
+		return string(x.Topic)
+	case *wamp.Subscribe:
+		return string(x.Topic)
+	case *wamp.Register:
+		return string(x.Procedure)
+	case *wamp.Call:
+		return string(x.Procedure)
+	}
+	return ""
+}
+
+func (a *TableAuthz) Decide(authid string, m wamp.Message) int {
+	switch m.(type) {
+	case *wamp.Goodbye, *wamp.Error:
+		return authzAllow
+	}
+	h := Mix(Mix(Mix(a.Seed, hashStr(authid)), uint64(m.MessageType())), hashStr(msgURI(m))) % 1000
+	switch {
+	case int(h) < a.DenyPerm:
+		return authzDeny
+	case int(h) < a.DenyPerm+a.FailPerm:
+		return authzFail
+	case int(h) < a.DenyPerm+a.FailPerm+a.RewrPerm:
+		if u := msgURI(m); u != "" && !strings.HasSuffix(u, ".") && !strings.HasPrefix(u, "wamp.") {
+			return authzRewrite
+		}
+	}
+	return authzAllow
+}
+
+func (a *TableAuthz) Authorize(sess *wamp.Session, m wamp.Message) (bool, error) {
+	a.Called++
+	authid, _ := wamp.AsString(sess.Details["authid"])
+	switch a.Decide(authid, m) {
+	case authzDeny:
+		return false, nil
+	case authzFail:
+		return false, errors.New("authorizer backend down")
+	case authzRewrite:
+		switch x := m.(type) {
+		case *wamp.Publish:
+			x.Topic += ".rw"
+			x.Options = wamp.SetOption(x.Options, "exclude_me", false)
+		case *wamp.Subscribe:
+			x.Topic += ".rw"
+		case *wamp.Register:
+			x.Procedure += ".rw"
+		case *wamp.Call:
+			x.Procedure += ".rw"
+		}
+	}
+	return true, nil
 }
